@@ -658,7 +658,10 @@ macro_rules! impl_const_elem_matrix {
         let mut cursor = Cursor::new(bytes);
         let rows = cursor.read_u32::<LittleEndian>().unwrap() as usize;
         let cols = cursor.read_u32::<LittleEndian>().unwrap() as usize;
-        let mut elements: Vec<T> = Vec::with_capacity(rows.saturating_mul(cols).min(bytes.len())); // the data cannot hold more
+        let mut elements: Vec<T> = Vec::with_capacity(rows.saturating_mul(cols).min(bytes.len()));
+        // every element takes at least one byte: a larger count cannot be honest, and a decoder
+        // that consumes nothing per element would otherwise spin for the whole count
+        assert!(rows.saturating_mul(cols) <= bytes.len(), "matrix dimensions exceed the available bytes");
 
         // Read in column-major order
         for _c in 0..cols {
@@ -698,7 +701,10 @@ where
     let mut cursor = Cursor::new(bytes);
     let rows = cursor.read_u32::<LittleEndian>().unwrap() as usize;
     let cols = cursor.read_u32::<LittleEndian>().unwrap() as usize;
-    let mut elements = Vec::with_capacity(rows.saturating_mul(cols).min(bytes.len())); // the data cannot hold more
+    let mut elements = Vec::with_capacity(rows.saturating_mul(cols).min(bytes.len()));
+    // every element takes at least one byte: a larger count cannot be honest, and a decoder
+    // that consumes nothing per element would otherwise spin for the whole count
+    assert!(rows.saturating_mul(cols) <= bytes.len(), "matrix dimensions exceed the available bytes");
     // Read in column-major order
     for _c in 0..cols {
       for _r in 0..rows {
@@ -733,7 +739,10 @@ where
     let mut cursor = Cursor::new(bytes);
     let rows = cursor.read_u32::<LittleEndian>().unwrap() as usize;
     let cols = cursor.read_u32::<LittleEndian>().unwrap() as usize;
-    let mut elements = Vec::with_capacity(rows.saturating_mul(cols).min(bytes.len())); // the data cannot hold more
+    let mut elements = Vec::with_capacity(rows.saturating_mul(cols).min(bytes.len()));
+    // every element takes at least one byte: a larger count cannot be honest, and a decoder
+    // that consumes nothing per element would otherwise spin for the whole count
+    assert!(rows.saturating_mul(cols) <= bytes.len(), "matrix dimensions exceed the available bytes");
     // Read in column-major order
     for _c in 0..cols {
       for _r in 0..rows {
@@ -768,7 +777,10 @@ where
     let mut cursor = Cursor::new(bytes);
     let rows = cursor.read_u32::<LittleEndian>().unwrap() as usize;
     let cols = cursor.read_u32::<LittleEndian>().unwrap() as usize;
-    let mut elements = Vec::with_capacity(rows.saturating_mul(cols).min(bytes.len())); // the data cannot hold more
+    let mut elements = Vec::with_capacity(rows.saturating_mul(cols).min(bytes.len()));
+    // every element takes at least one byte: a larger count cannot be honest, and a decoder
+    // that consumes nothing per element would otherwise spin for the whole count
+    assert!(rows.saturating_mul(cols) <= bytes.len(), "matrix dimensions exceed the available bytes");
     // Read in column-major order
     for _c in 0..cols {
       for _r in 0..rows {
@@ -853,7 +865,10 @@ where
     let mut cursor = Cursor::new(bytes);
     let rows = cursor.read_u32::<LittleEndian>().unwrap() as usize;
     let cols = cursor.read_u32::<LittleEndian>().unwrap() as usize;
-    let mut elements = Vec::with_capacity(rows.saturating_mul(cols).min(bytes.len())); // the data cannot hold more
+    let mut elements = Vec::with_capacity(rows.saturating_mul(cols).min(bytes.len()));
+    // every element takes at least one byte: a larger count cannot be honest, and a decoder
+    // that consumes nothing per element would otherwise spin for the whole count
+    assert!(rows.saturating_mul(cols) <= bytes.len(), "matrix dimensions exceed the available bytes");
     // Read in column-major order
     for _c in 0..cols {
       for _r in 0..rows {
@@ -1157,6 +1172,7 @@ impl ConstElem for ValueKind {
         cursor.set_position(cursor.position() + 1); // advance past elem_vk tag
         let dim_count = cursor.read_u32::<LittleEndian>().expect("read matrix dim count") as usize;
         let mut dims = Vec::with_capacity(dim_count.min(bytes.len()));
+        assert!(dim_count <= bytes.len(), "dimension count exceeds the available bytes");
         for _ in 0..dim_count {
             dims.push(cursor.read_u32::<LittleEndian>().expect("read matrix dim") as usize);
         }
@@ -1172,6 +1188,7 @@ impl ConstElem for ValueKind {
       26 => {
         let field_count = cursor.read_u32::<LittleEndian>().expect("read table fields length") as usize;
         let mut fields = Vec::with_capacity(field_count.min(bytes.len()));
+        assert!(field_count <= bytes.len(), "field count exceeds the available bytes");
         for _ in 0..field_count {
           let name = String::from_le(&bytes[cursor.position() as usize..]);
           let mut buf = Vec::new();
@@ -1286,6 +1303,7 @@ impl ConstElem for MechTable {
     // Read row and column counts
     let rows = cursor.read_u32::<LittleEndian>().expect("read rows") as usize;
     let cols = cursor.read_u32::<LittleEndian>().expect("read cols") as usize;
+    assert!(rows.saturating_mul(cols.max(1)) <= data.len() && cols <= data.len(), "table dimensions exceed the available bytes");
 
     let mut data_map: IndexMap<u64, (ValueKind, Matrix<Value>)> = IndexMap::new();
     let mut col_names: HashMap<u64, String> = HashMap::new();
@@ -1373,6 +1391,7 @@ impl ConstElem for MechSet {
       .expect("read set element count") as usize;
     // 3) read each Value (advance cursor using each value's encoded length)
     let mut set = IndexSet::with_capacity(num_elements.min(data.len()));
+    assert!(num_elements <= data.len(), "set element count exceeds the available bytes");
     for _ in 0..num_elements {
       let pos = cursor.position() as usize;
       let value = Value::from_le(&data[pos..]);
@@ -1413,6 +1432,7 @@ impl ConstElem for MechTuple {
       .expect("read tuple element count") as usize;
     // 3) Read each element
     let mut elements: Vec<Box<Value>> = Vec::with_capacity(num_elements.min(data.len()));
+    assert!(num_elements <= data.len(), "tuple element count exceeds the available bytes");
     for _ in 0..num_elements {
       let pos = cursor.position() as usize;
       let value = Value::from_le(&data[pos..]);
